@@ -1034,7 +1034,7 @@ theorem solveLoopX_spec (eps : Rat) : ∀ (fuel : Nat) (st : SolveStX Rat), SxIn
     SxInv (solveLoopX eps fuel st).s ∧ StoppedOKX eps (solveLoopX eps fuel st) := by
   intro fuel
   induction fuel with
-  | zero => intro st h; exact ⟨h, fun hc => by simp [solveLoopX] at hc⟩
+  | zero => intro st h; exact ⟨sxInv_unshrink st.s h, fun hc => by simp [solveLoopX] at hc⟩
   | succ fuel ih =>
     intro st h
     have hb := solveBodyX_spec eps st h
